@@ -347,7 +347,7 @@ def check_line_breaks(ctx, f: FuncInfo, rule="ORD-br"):
     from .minieval import MiniEval, Node
     try:
       got, want = [], []
-      for text in ("one\ntwo\n\nfour\n", "a\x0bb\u2028c\rd"):
+      for text in ("one\ntwo\n\nfour\n", "a\x0bb\u2028c\rd", "\n", " ", " \n\t"):
         para = Node("P", "paragraph", (), doc="doc")
         selfn = Node("Parser", "parser", (), parent=para, line_num=1)
         MiniEval(ctx.ix).call(f, [selfn, text])
@@ -360,7 +360,7 @@ def check_line_breaks(ctx, f: FuncInfo, rule="ORD-br"):
         want.append(exp)
       ctx.check(got == want, rule, f"{f.qualname}|a line break precedes every line but the first", ctx.where(f.module, f.node),
                 "interpreted on two sample texts: one span per line (empty and trailing ones too), a line break between consecutive lines, lines end at LF only",
-                f"interpreted on the texts 'one\\ntwo\\n\\nfour\\n' and 'a\\x0bb\\u2028c\\rd', the handler builds {got}; expected one span per LF-separated line "
+                f"interpreted on the texts 'one\\ntwo\\n\\nfour\\n', 'a\\x0bb\\u2028c\\rd' and the white-space-only texts '\\n', ' ', ' \\n\\t' (what lies between two tags), the handler builds {got}; expected one span per LF-separated line "
                 f"(the empty ones too) with a line break between consecutive lines, and no break at other characters")
       return
     except _R:
